@@ -190,6 +190,17 @@ func ExtractValue(v reflect.Value, extractor ValueExtractor) {
 func TypeMapOf(typ reflect.Type) map[string]reflect.Type {
 	typMap := make(map[string]reflect.Type)
 	FetchType(typ, typMap)
+	// FetchType knows struct types by their Go names only. A value of this type is sent with list type names and
+	// custom class names as well: add what extraction from a fresh value of the type gives (empty slices, maps
+	// and nil pointers are described by a fresh element there, so nothing reachable through the type is missed)
+	if root := UnpackPtrType(typ); root.Kind() != reflect.Interface {
+		extracted, _ := ExtractTypeNameMap(reflect.New(root).Interface())
+		for name, t := range extracted {
+			if _, ok := typMap[name]; !ok {
+				typMap[name] = t
+			}
+		}
+	}
 	return typMap
 }
 
